@@ -43,6 +43,9 @@ def observe_pairs(rep, rng, tier):
         dict(save_every=3, output="temp"), dict(save_every=3, progress_interval=5), dict(save_every=3, progress_interval=0),
         dict(save_every=7, progress_interval=1),
         dict(save_every=4, probes=False),
+        # output destination given as a RELATIVE name in a job directory; afterwards the process moves to another directory that
+        # holds a file of the same name from other physics
+        dict(save_every=3, output="relative"),
     ]
     physics = [
         dict(A=0.3, cur=1.5, adaptive=True, screening=False, T=0.25),
@@ -67,13 +70,28 @@ def observe_pairs(rep, rng, tier):
                           save_every=var["save_every"], include_screening=ph["screening"], screening_tolerance=1e-2)
                 if "progress_interval" in var:
                     kw["progress_interval"] = var["progress_interval"]
-                if var.get("output") == "temp":
-                    opts = runs.make_options(None, **kw)
-                else:
-                    opts = runs.make_options(td, **kw)
                 cur = {"source": ph["cur"], "drain": -ph["cur"]}
                 Afield = runs.ramp_field_param(0.1, 0.7, 0.2) if ph["A"] == "ramp" else ph["A"]
-                sol, _ = runs.traced_solve(dev, opts, A=Afield, currents=cur)
+                cwd0 = os.getcwd()
+                if var.get("output") == "temp":
+                    opts = runs.make_options(None, **kw)
+                elif var.get("output") == "relative":
+                    job, other = os.path.join(td, "job"), os.path.join(td, "other")
+                    os.makedirs(job), os.makedirs(other)
+                    os.chdir(other)
+                    runs.traced_solve(dev, runs.make_options(None, **{**kw, "solve_time": kw["solve_time"] / 3}, output_file="out.h5"),
+                                      A=0.05, currents={"source": 0.5 * ph["cur"], "drain": -0.5 * ph["cur"]})
+                    os.chdir(job)
+                    opts = runs.make_options(None, **kw, output_file="out.h5")
+                else:
+                    opts = runs.make_options(td, **kw)
+                try:
+                    sol, _ = runs.traced_solve(dev, opts, A=Afield, currents=cur)
+                    if var.get("output") == "relative":
+                        os.chdir(os.path.join(td, "other"))
+                finally:
+                    if var.get("output") != "relative":
+                        os.chdir(cwd0)
                 if var.get("output") == "temp":
                     # the temporary file is gone; the returned Solution carries the final frame in memory
                     d = sol.tdgl_data
@@ -82,7 +100,10 @@ def observe_pairs(rep, rng, tier):
                         h.update(np.ascontiguousarray(np.asarray(getattr(d, name))).tobytes())
                     results.append((var, {int(d.state["step"]): (h.hexdigest(), float(d.state["time"]), {"psi": np.asarray(d.psi)})}))
                 else:
-                    results.append((var, read_frames(sol.path)))
+                    try:
+                        results.append((var, read_frames(sol.path)))
+                    finally:
+                        os.chdir(cwd0)
             rep.count(1)
         ref_var, ref = results[0]              # save_every = 1: every step
         for var, fr in results[1:]:
